@@ -52,6 +52,11 @@ def run(tier, seed):
                 if kind == "periodic":
                     p["period"] = 2 if g == 1.0 else rng.choice([1, 2, 3])
                 valid_sets.append((kind, p))
+        if kind in ("vi", "pi", "semi"):
+            # both convergence tests at both ends of the gamma range (the two tests have separate threshold code)
+            for g in (0.0, 1.0, 0.5):
+                for tst in ("span", "max_diff"):
+                    valid_sets.append((kind, dict(b, gamma=g, convergence_test=tst, epsilon=rng.choice([1e-3, 1.0]))))
         valid_sets.append((kind, dict(b, max_batch_size=1, verbose=4)))
         valid_sets.append((kind, dict(b, checkpoint_frequency=0, max_checkpoints=0, verbose=1)))
         if kind in ("vi", "pi", "semi"):
@@ -60,7 +65,7 @@ def run(tier, seed):
             valid_sets.append((kind, dict(b, max_eval_iter=1)))
     if tier == "quick":
         rng.shuffle(valid_sets)
-        keep = [v for v in valid_sets if v[1].get("gamma") in (0.0, 1.0) or v[1].get("epsilon", 0) >= 100][:40] + valid_sets[:25]
+        keep = [v for v in valid_sets if "convergence_test" in v[1]] + [v for v in valid_sets if v[1].get("gamma") in (0.0, 1.0) or v[1].get("epsilon", 0) >= 100][:30] + valid_sets[:20]
         valid_sets = keep
     for kind, p in valid_sets:
         for route in ("kwargs", "config", "yaml"):
